@@ -17,7 +17,10 @@ RULE = ("cases = (nested settings tree with underscore-/case-bearing keys so tha
         "empty / unprefixed / lower-case / section-naming variables, prefix default or custom via a Config subclass); "
         "each is run through the real Config(...).load_shell_env() under a replaced os.environ; non-trivial = at least "
         "one variable of the environment names an existing setting or two settings collide; distinct = distinct "
-        "(tree, environment, prefix) triples")
+        "(tree, environment, prefix) triples; plus HISTORIES on one Config object: 2-4 load_shell_env() calls under changing "
+        "environments (variables added / changed / removed / all removed), interleaved with load_defaults / load_overrides / "
+        "load_collection (different content or {}), attribute writes and clone(); the property is evaluated after every load for "
+        "the environment of that moment")
 TRUSTED = ["Lean 4.33 kernel", "axioms propext/Classical.choice/Quot.sound only",
            "harness/props/c16.py + harness/valcodec.py correspondence and canonicalisation",
            "tools/extractors/config.py (behavioural probing of the cast branches)",
@@ -202,6 +205,9 @@ def oracle(case, before, exc, after):
 
 
 def replay(case):
+    if case.get("kind") == "history":
+        why, _ = judge_history(case, run_history(case))
+        return why is None, why or "ok"
     if case.get("kind") != "load":
         return True, "auxiliary differential case (no property statement attached)"
     before, exc, after = run_impl(case)
@@ -340,6 +346,255 @@ def aux_impl(c):
         return "err:" + type(e).__name__
 
 
+
+# ------------------------------------------------------------------ histories: several load_shell_env() on ONE object
+
+LEVEL_CODE = {"defaults": "d", "collection": "c", "overrides": "o", "modifications": "m"}
+HIST_ORDER = ["defaults", "collection", "env", "overrides", "modifications"]
+NOWHERE = "/nonexistent-verif-c16/"
+
+
+def redraw(rng, v):
+    """another value for the same setting: mostly of the same type"""
+    if rng.random() < 0.12:
+        return rng.choices(LEAVES, LEAFW)[0]
+    if isinstance(v, bool):
+        return rng.random() < 0.5
+    if isinstance(v, int):
+        return rng.choice([0, 1, 7, -3, 12])
+    if isinstance(v, str):
+        return rng.choice(["s", "", "0", "txt"])
+    if v is None:
+        return rng.choice([None, None, "w"])
+    return copy.deepcopy(v)
+
+
+def variant(rng, master, p_in):
+    out = {}
+    for k, v in master.items():
+        if rng.random() >= p_in:
+            continue
+        out[k] = variant(rng, v, p_in) if isinstance(v, dict) else redraw(rng, v)
+    return out
+
+
+def merged(levels, env):
+    out = {}
+    for l in HIST_ORDER:
+        out = overlay(out, env if l == "env" else levels[l])
+    return out
+
+
+def gen_environ(rng, P, view, prev):
+    """an environment for this moment, derived from the previous one: variables removed / changed / added / all gone"""
+    lv = list(leaves(view))
+    r = rng.random()
+    if prev is not None and r < 0.1:
+        return dict(prev)
+    env = {}
+    if not (prev is not None and r < 0.35):  # else: every applicable variable is gone, only unrelated ones remain
+        for k, v in (prev or {}).items():
+            q = rng.random()
+            if q < 0.35:
+                continue
+            env[k] = v if q < 0.7 else rng.choice(VALUES + NUMERIC)
+        for p, v in lv:
+            if rng.random() < 0.3:
+                numeric = isinstance(v, (int, float)) and not isinstance(v, bool)
+                env[P + var_of(p)] = rng.choice(NUMERIC) if numeric and rng.random() < 0.85 else rng.choice(VALUES)
+        if prev is not None and not any((P + var_of(p)) in env for p, _ in lv) and lv:
+            p, v = rng.choice(lv)
+            env[P + var_of(p)] = "1"
+    if rng.random() < 0.6:
+        env[P + "NOT_A_SETTING"] = "1"
+    if rng.random() < 0.3:
+        env["UNRELATED"] = "x"
+    return {k: v for k, v in env.items() if k and "=" not in k}
+
+
+def gen_history(rng):
+    while True:
+        master = gen_tree(rng)
+        if rng.random() < 0.85 and len({var_of(p) for p, _ in leaves(master)}) != len(list(leaves(master))):
+            continue  # mostly collision-free vocabularies, so that histories get past the first load
+        if list(leaves(master)):
+            break
+    pre = rng.choice(["invoke", "invoke", "myapp", "my_app"])
+    how = "default" if pre == "invoke" else rng.choice(["prefix", "env_prefix"])
+    P = pre.upper() + "_"
+    levels = {"defaults": variant(rng, master, 0.8), "collection": {}, "overrides": {}, "modifications": {}}
+    ops = [{"op": "defaults", "tree": tag(levels["defaults"])}]
+    prev = None
+    for i in range(rng.choice([2, 2, 3, 3, 4])):
+        for _ in range(rng.choice([0, 0, 1, 1, 2]) if i else rng.choice([0, 1])):
+            r = rng.random()
+            if r < 0.5:
+                lvl = rng.choice(["defaults", "collection", "collection", "overrides"])
+                t = {} if rng.random() < 0.2 else variant(rng, master, rng.choice([0.4, 0.7, 0.9]))
+                levels[lvl] = t
+                ops.append({"op": lvl, "tree": tag(t)})
+            elif r < 0.8:
+                lv = list(leaves(master))
+                p, v = rng.choice(lv)
+                val = redraw(rng, v)
+                levels["modifications"] = overlay(levels["modifications"], _nest(p, val))
+                ops.append({"op": "write", "path": list(p), "value": tag(val)})
+            else:
+                ops.append({"op": "clone"})
+        environ = gen_environ(rng, P, merged(levels, {}), prev)
+        prev = environ
+        ops.append({"op": "env", "environ": environ})
+    return {"kind": "history", "prefix": pre, "how": how, "ops": ops}
+
+
+def _nest(path, v):
+    for k in reversed(path):
+        v = {k: v}
+    return v
+
+
+def write_path(c, path, value):
+    cur = c
+    for k in path[:-1]:
+        if k not in cur:
+            cur[k] = {}
+        cur = cur[k]
+    cur[path[-1]] = value
+
+
+def run_history(case):
+    """-> list of (exception class | None, view) per load_shell_env() call, stopping after the first exception;
+    a trailing ('crash:<Class>', None) when some other operation raised"""
+    from invoke.config import Config
+    pre, how = case["prefix"], case.get("how", "default")
+    klass = Config if how == "default" else type("HistConfig", (Config,), {("prefix" if how == "prefix" else "env_prefix"): pre})
+    obs = []
+    with replaced_environ({}):
+        c = None
+        try:
+            for op in case["ops"]:
+                kind = op["op"]
+                if kind == "env":
+                    os.environ.clear()
+                    os.environ.update(op["environ"])
+                    try:
+                        c.load_shell_env()
+                    except Exception as e:  # noqa
+                        obs.append((type(e).__name__, plain(c)))
+                        return obs
+                    finally:
+                        os.environ.clear()
+                    obs.append((None, plain(c)))
+                elif kind == "defaults" and c is None:
+                    c = klass(defaults=build(op["tree"]), system_prefix=NOWHERE, user_prefix=NOWHERE + ".", lazy=True)
+                elif kind == "defaults":
+                    c.load_defaults(build(op["tree"]))
+                elif kind == "collection":
+                    c.load_collection(build(op["tree"]))
+                elif kind == "overrides":
+                    c.load_overrides(build(op["tree"]))
+                elif kind == "write":
+                    write_path(c, op["path"], build(op["value"]))
+                elif kind == "clone":
+                    c = c.clone()
+        except Exception as e:  # noqa
+            obs.append(("crash:" + type(e).__name__, None))
+    return obs
+
+
+def semantics(base, environ, P):
+    """the property for one moment: which settings of `base` the environment overrides, and how
+    -> ('ambiguous' | 'uncastable' | 'dontcare' | 'ok', env-level tree)"""
+    kind, exp = expected({"prefix": P[:-1], "env": environ}, base)
+    tree = {}
+    for p, v in exp.items():
+        tree = overlay(tree, _nest(p, v))
+    return kind, tree
+
+
+def matches(kind, env_tree, levels, exc, view):
+    if kind == "ambiguous":
+        return exc == "AmbiguousEnvVar"
+    if kind == "uncastable":
+        return exc == "UncastableEnvVar"
+    if exc is not None:
+        return False
+    want = merged(levels, env_tree)
+    return ({p: typed(v) for p, v in leaves(want)} == {p: typed(v) for p, v in leaves(view)}
+            and set(sections(want)) == set(sections(view)))
+
+
+def judge_history(case, obs):
+    """-> (why | None, stats).  After every load the property is evaluated for the environment of THAT moment:
+    the existing settings are the ones the OTHER levels define now (strict reading).  When the outcome is instead
+    what the property gives if the env level left behind by the previous load counts as configuration (settings or
+    types that only the stale env level still provides), the failure is tagged [stale-env] (recorded finding)."""
+    P = case["prefix"].upper() + "_"
+    levels = {"defaults": {}, "collection": {}, "overrides": {}, "modifications": {}}
+    env_prev = {}
+    i = 0
+    stats = {"loads": 0, "tagged": 0}
+    for op in case["ops"]:
+        kind = op["op"]
+        if kind in levels:
+            levels[kind] = build(op["tree"])
+        elif kind == "write":
+            levels["modifications"] = overlay(levels["modifications"], _nest(op["path"], build(op["value"])))
+        elif kind == "env":
+            if i >= len(obs):
+                return None, stats
+            exc, view = obs[i]
+            i += 1
+            if exc and exc.startswith("crash:"):
+                return "an operation other than load_shell_env raised %s" % exc[6:], stats
+            stats["loads"] += 1
+            k1, e1 = semantics(merged(levels, {}), op["environ"], P)
+            k2, e2 = semantics(merged(levels, env_prev), op["environ"], P)
+            if "dontcare" in (k1, k2):
+                return None, stats
+            if matches(k1, e1, levels, exc, view):
+                env_prev = e1
+            elif matches(k2, e2, levels, exc, view):
+                stats["tagged"] += 1
+                return ("[stale-env] load %d: the outcome is explained only by the env level of the PREVIOUS load still counting "
+                        "as configuration (%s / %s)" % (i, k1, exc)), stats
+            else:
+                got = exc or {".".join(p): v for p, v in list(leaves(view))[:6]}
+                return ("load %d under %r: outcome %r is not 'exactly the existing settings named by the environment of this "
+                        "moment are overridden, typed; all else as the other levels say' (expected %s)" % (
+                            i, op["environ"], got, k1)), stats
+            if exc is not None:
+                return None, stats
+    if i < len(obs) and obs[i][0] and obs[i][0].startswith("crash:"):
+        return "an operation other than load_shell_env raised %s" % obs[i][0][6:], stats
+    return None, stats
+
+
+def history_line(case):
+    parts = ["hist", enc_str(case["prefix"].upper() + "_")]
+    mods = {}
+    for op in case["ops"]:
+        kind = op["op"]
+        if kind == "env":
+            parts.append("e=" + enc_environ(op["environ"]))
+        elif kind == "write":
+            mods = overlay(mods, _nest(op["path"], build(op["value"])))
+            parts.append("m=" + enc_tree(mods))
+        elif kind in LEVEL_CODE:
+            parts.append(LEVEL_CODE[kind] + "=" + enc_tree(build(op["tree"])))
+    return " ".join(parts)
+
+
+def history_has_opaque(case):
+    def any_float(t):
+        return any(isinstance(v, float) for _, v in leaves(t))
+    return any((op["op"] in LEVEL_CODE and any_float(build(op["tree"]))) or
+               (op["op"] == "write" and isinstance(build(op["value"]), float)) for op in case["ops"])
+
+
+def match_known(entry, failure):
+    return entry.get("id") == "C16-stale-env-premerge" and str(failure.get("why", "")).startswith("[stale-env]")
+
 # ------------------------------------------------------------------ run
 
 def run(ctx):
@@ -360,7 +615,15 @@ def run(ctx):
         results.append((before, exc, after))
         lines.append(load_line(c, before))
     aux, aux_lines = aux_cases(ctx, rng)
-    model = drv.run(lines + aux_lines) if ctx.model_ok else [None] * (len(lines) + len(aux_lines))
+    hist = [gen_history(rng) for _ in range(ctx.n(2500, 40000))]
+    hist += [{"kind": "history", "prefix": "invoke", "how": "default", "ops": [
+        {"op": "defaults", "tree": tag({"foo": "old", "num": 1, "nested": {"flag": False}})},
+        {"op": "env", "environ": {"INVOKE_FOO": "bar", "INVOKE_NUM": "5", "INVOKE_NESTED_FLAG": "yes"}},
+        {"op": "env", "environ": {"INVOKE_NUM": "7", "UNRELATED": "x"}},
+        {"op": "env", "environ": {"UNRELATED": "x", "INVOKE_NOT_A_SETTING": "y"}},
+        {"op": "clone"}, {"op": "env", "environ": {}}]}]
+    hist_lines = [history_line(c) for c in hist]
+    model = drv.run(lines + aux_lines + hist_lines) if ctx.model_ok else [None] * (len(lines) + len(aux_lines) + len(hist_lines))
     for c, (before, exc, after), m in zip(cases, results, model):
         kind, why = oracle(c, before, exc, after)
         P = c["prefix"].upper() + "_"
@@ -399,5 +662,40 @@ def run(ctx):
                 m, got = sorted(m[3:].split(";")), sorted(got[3:].split(";"))
             if m != got:
                 out.disagree(c, got, m)
+    for c, m in zip(hist, model[len(lines) + len(aux_lines):]):
+        obs = run_history(c)
+        why, st = judge_history(c, obs)
+        out.case(c, nontrivial=st["loads"] >= 2)
+        out.hist["history"] += 1
+        out.hist["history_loads_judged:%d" % st["loads"]] += 1
+        out.hist["history_clones:%d" % min(2, sum(1 for op in c["ops"] if op["op"] == "clone"))] += 1
+        envs = [op["environ"] for op in c["ops"] if op["op"] == "env"]
+        P = c["prefix"].upper() + "_"
+        for a, b in zip(envs, envs[1:]):
+            rel = lambda e: {k for k in e if k.startswith(P) and k != P + "NOT_A_SETTING"}  # noqa: E731
+            out.hist["history_env_change:" + ("same" if a == b else "all_removed" if rel(a) and not rel(b) else
+                                              "removed" if rel(a) - rel(b) else "added_or_changed")] += 1
+        if obs and obs[-1][0] and not obs[-1][0].startswith("crash:"):
+            out.hist["history_ended_by:" + obs[-1][0]] += 1
+        if why and why.startswith("[stale-env]"):
+            out.hist["history_stale_env_finding"] += 1
+        if m is not None and not history_has_opaque(c) and not (why is None and st["loads"] < len(obs)):
+            # the model follows the code literally (the pre-merge contains the previous env level)
+            got = []
+            for exc, view in obs:
+                if exc and exc.startswith("crash:"):
+                    got.append(exc)
+                elif exc:
+                    got.append("err:" + exc)
+                else:
+                    got.append("ok " + enc_tree(view, canon=True))
+            mm = m.split("|")
+            dontcare = any(x == "err:ValueError" for x in mm) or any(x == "err:ValueError" for x in got)
+            if not dontcare:
+                out.traces += 1
+                if got != mm[:len(got)] or len(mm) != len(got):
+                    out.disagree(c, " | ".join(got)[:400], " | ".join(mm)[:400])
+        if why:
+            out.fail(c, why)
     out.extra["table_obligations"] = 2  # generated_cast_order_documented, generated_cast_table_documented
     return out
